@@ -228,6 +228,9 @@ def parse_operand(s):
         return ('move', parse_place(s[5:]))
     if s.startswith('const '):
         return parse_const(s[6:])
+    if re.match(r'^[A-Za-z_<][\w:<>, &\[\]()\'{}@./-]*$', s) and '::' in s:
+        # a function item passed by value (`unwrap_or_else(.., Stream::<U, E>::empty)`) is printed without `const`
+        return ('const', 'item', s, '')
     raise ValueError('operand? ' + s)
 
 
